@@ -233,23 +233,66 @@ pub proof fn lemma_proposed(cs: Map<Key, Value>, key: Key)
             forall|n: u16| in_degrees@.contains_key(n) && in_degrees@[n] == 0 ==> r@.contains(n)""",
           note='`filter_map` over a BTreeMap iterator: outside Verus; std BTreeMap is outside CBMC: NOT VERIFIED (4 lines)', props=('C01',)))
     so.fn('parallel_topo_sort', F('parallel_topo_sort', attrs=['#[verifier::exec_allows_no_decreases_clause]'], props=('C01', 'C06')))
-    so.fn('find_deferred', F('find_deferred', attrs=['#[verifier::exec_allows_no_decreases_clause]'],
-          requires='forall|n: &Node| is_deferred.requires((n,)), crate::graph_ok(predicate.starts(), predicate.edges@)',
-          loops={0: {'invariant': 'forall|n: &Node| is_deferred.requires((n,)), forall|k: int| 0 <= k < pending@.len() ==> (#[trigger] pending@[k] as int) < predicate.nodes@.len()'},
-                 1: {'invariant': '''crate::graph_ok(predicate.starts(), predicate.edges@), predicate.starts().len() == predicate.nodes@.len(),
-                        forall|k: int| 0 <= k < pending@.len() ==> (#[trigger] pending@[k] as int) < predicate.nodes@.len()''',
-                     'head_proof': 'assert(crate::node_ok(predicate.starts(), predicate.edges@, ix as int));'},
-                 2: {'iter_name': 'itc', 'invariant': '''crate::graph_ok(predicate.starts(), predicate.edges@), predicate.starts().len() == predicate.nodes@.len(), (ix as int) < predicate.nodes@.len(),
+    _S = 'predicate.starts(), predicate.edges@'
+    _FL = 'node_flag(is_deferred, predicate.nodes@)'
+    so.spec('''
+// the flag of node i as decided by the caller's closure (A-traits: a pure function of the node)
+pub open spec fn node_flag<F: Fn(&Node) -> bool>(f: F, nodes: Seq<Node>) -> spec_fn(int) -> bool { |i: int| f.ensures((&nodes[i],), true) }
+''')
+    so.fn('find_deferred', F('find_deferred', attrs=['#[verifier::exec_allows_no_decreases_clause]', '#[verifier::loop_isolation(false)]'],
+          requires='''forall|n: &Node| is_deferred.requires((n,)), crate::graph_ok(%(S)s), predicate.nodes@.len() <= 0x1_0000,
+            // the flag is a function of the node (pure closure)
+            forall|n: &Node, b1: bool, b2: bool| is_deferred.ensures((n,), b1) && is_deferred.ensures((n,), b2) ==> b1 == b2''' % {'S': _S},
+          ensures='''
+            // every flagged node is deferred ...
+            forall|i: int| 0 <= i < predicate.nodes@.len() && #[trigger] crate::flagged(%(FL)s, i) ==> r@.contains(i as u16),
+            // ... and so is every child of a deferred node (hence every descendant, however the nodes are numbered) ...
+            forall|a: u16, b: u16| r@.contains(a) && #[trigger] crate::child_of(%(S)s, a, b) ==> r@.contains(b),
+            // ... and nothing else: every deferred node is a flagged node or a descendant of one
+            forall|d: u16| #[trigger] r@.contains(d) ==> crate::descends(%(S)s, %(FL)s, d)''' % {'S': _S, 'FL': _FL},
+          head_ghost='let ghost flag = %s; let ghost mut gp: Seq<u16> = Seq::empty();' % _FL,
+          loops={0: {'invariant': '''deferred@ == Set::<u16>::empty(), predicate.starts().len() == predicate.nodes@.len(),
+                        forall|k: int| 0 <= k < pending@.len() ==> (#[trigger] pending@[k] as int) < predicate.nodes@.len() && flag(pending@[k] as int),
+                        forall|i: int| 0 <= i < ix && #[trigger] crate::flagged(flag, i) ==> pending@.contains(i as u16)''',
+                     'head_ghost': 'let ghost p_old = pending@;',
+                     'tail_proof': '''assert forall|i: int| 0 <= i < ix + 1 && #[trigger] crate::flagged(flag, i) implies pending@.contains(i as u16) by {
+                            if i < ix { assert(p_old.contains(i as u16)); let k = choose|k: int| 0 <= k < p_old.len() && p_old[k] == i as u16; assert(pending@[k] == i as u16); }
+                            else { assert(pending@[pending@.len() - 1] == ix as u16); } }''',
+                     'after_proof': '''assert forall|k: int| 0 <= k < pending@.len() implies crate::descends(%(S)s, flag, #[trigger] pending@[k]) by {
+                            crate::lemma_descends_self(%(S)s, flag, pending@[k]); }
+                        assert forall|i: int| 0 <= i < predicate.nodes@.len() && #[trigger] crate::flagged(flag, i) implies crate::in_work(deferred@, pending@, i as u16) by { }
+                        gp = pending@;''' % {'S': _S}},
+                 1: {'invariant': '''gp == pending@, forall|k: int| 0 <= k < pending@.len() ==> (#[trigger] pending@[k] as int) < predicate.nodes@.len(),
+                        forall|k: int| 0 <= k < pending@.len() ==> crate::descends(%(S)s, flag, #[trigger] pending@[k]),
+                        forall|d: u16| #[trigger] deferred@.contains(d) ==> crate::descends(%(S)s, flag, d),
+                        forall|i: int| 0 <= i < predicate.nodes@.len() && #[trigger] crate::flagged(flag, i) ==> crate::in_work(deferred@, pending@, i as u16),
+                        forall|a: u16, b: u16| deferred@.contains(a) && #[trigger] crate::child_of(%(S)s, a, b) ==> crate::in_work(deferred@, pending@, b)''' % {'S': _S},
+                     'head_proof': '''assert(crate::node_ok(%(S)s, ix as int));
+                        assert(gp =~= pending@.push(ix));
+                        crate::lemma_work_move(deferred@, pending@, ix);''' % {'S': _S},
+                     'tail_proof': '''assert(deferred@.contains(ix)); assert(deferred@.insert(ix) =~= deferred@);
+                        gp = pending@;'''},
+                 2: {'iter_name': 'itc', 'invariant': '''(ix as int) < predicate.nodes@.len(), deferred@.contains(ix),
                         forall|k: int| 0 <= k < pending@.len() ==> (#[trigger] pending@[k] as int) < predicate.nodes@.len(),
-                        crate::node_edges_spec(predicate.starts(), predicate.edges@, ix as int) is Some,
-                        itc.seq().len() == crate::node_edges_spec(predicate.starts(), predicate.edges@, ix as int)->Some_0.len(), 0 <= itc.index@ <= itc.seq().len(),
-                        forall|k: int| 0 <= k < itc.seq().len() ==> *(#[trigger] itc.seq()[k]) == crate::node_edges_spec(predicate.starts(), predicate.edges@, ix as int)->Some_0[k]''',
-                     'head_proof': '''assert(crate::node_ok(predicate.starts(), predicate.edges@, ix as int));
-                        assert(*child == crate::node_edges_spec(predicate.starts(), predicate.edges@, ix as int)->Some_0[itc.index@ as int]);'''}},
+                        forall|k: int| 0 <= k < pending@.len() ==> crate::descends(%(S)s, flag, #[trigger] pending@[k]),
+                        forall|d: u16| #[trigger] deferred@.contains(d) ==> crate::descends(%(S)s, flag, d),
+                        forall|i: int| 0 <= i < predicate.nodes@.len() && #[trigger] crate::flagged(flag, i) ==> crate::in_work(deferred@, pending@, i as u16),
+                        forall|a: u16, b: u16| deferred@.contains(a) && a != ix && #[trigger] crate::child_of(%(S)s, a, b) ==> crate::in_work(deferred@, pending@, b),
+                        crate::node_edges_spec(%(S)s, ix as int) is Some,
+                        forall|k: int| 0 <= k < itc.index@ ==> crate::in_work(deferred@, pending@, #[trigger] crate::node_edges_spec(%(S)s, ix as int)->Some_0[k]),
+                        itc.seq().len() == crate::node_edges_spec(%(S)s, ix as int)->Some_0.len(), 0 <= itc.index@ <= itc.seq().len(),
+                        forall|k: int| 0 <= k < itc.seq().len() ==> *(#[trigger] itc.seq()[k]) == crate::node_edges_spec(%(S)s, ix as int)->Some_0[k]''' % {'S': _S},
+                     'head_proof': '''assert(crate::node_ok(%(S)s, ix as int));
+                        assert(*child == crate::node_edges_spec(%(S)s, ix as int)->Some_0[itc.index@ as int]);
+                        assert(crate::child_of(%(S)s, ix, *child));
+                        crate::lemma_descends_step(%(S)s, flag, ix, *child);
+                        crate::lemma_work_push(deferred@, pending@, *child);''' % {'S': _S}}},
           hints=[('let mut pending: Vec<u16> = Vec::new();', 'after', 'assert(predicate.starts().len() == predicate.nodes@.len());')],
           props=('C01', 'C03', 'C06')))
     so.fn('should_cache', F('should_cache', requires='crate::graph_ok(predicate.starts(), predicate.edges@), (node as int) < predicate.nodes@.len()',
           head_proof='assert(predicate.starts().len() == predicate.nodes@.len()); assert(crate::node_ok(predicate.starts(), predicate.edges@, node as int));',
+          # functional result not claimed: vstd's specification of Iterator::any says nothing when the result is false, and the body is a single
+          # expression (no place for the witness step of the other direction); only panic-freedom under graph_ok is proved
           props=('C01', 'C03')))
     so.fn('remove_deferred', F('remove_deferred', props=('C01', 'C03')))
     so.fn('remove_not_deferred', F('remove_not_deferred', props=('C01', 'C03')))
